@@ -12,6 +12,7 @@ import (
 func init() {
 	register(&PropDef{ID: "C11", Title: "Scope close protocol: ordered events, commit xor rollback, waits for children", Rules: rulesC11,
 		Explanation: "Decided (structural necessary conditions, all paths of scope.(*Scope).Close and its helpers): R1 on every entry->return path of Close the events form the word guard, guard-under-lock, set-closed, BeforeClose, Wait, then exactly one of (BeforeRollback Rollback AfterRollback) / (BeforeCommit Commit AfterCommit), then close(); close() fires AfterClose and then signs off from the parent iff one is registered; R2 the rollback triple is on the non-nil edge of that Wait's result and the commit triple on its nil edge; R3 the double-close guard dominates every event, the closed flag is set under the scope mutex after a guard evaluated under that mutex, and Kill/Stop/AppendError test the flag first; R4 Scope.Wait waits (on every path) for the same WaitGroup that AddTasks feeds and DoneTask drains, and AddTasks refuses a finished scope without adding; R5 every return of Close returns Err() evaluated after the last trigger; R6 listeners are kept in append order, Trigger walks them from the first in order and returns the first error, a child event scope triggers its parent's listeners first; R7 a child scope defaults to the parent's own context, and an isolated context uses its parent only through read-only methods and is stopped/killed by its watcher on the parent's done branch; R8 Kill of a context records an error on every path (so a kill in a child sharing the parent's context fails the parent, whatever happened before). " +
+			"R4 also: Close reaches Wait on every path (a scope that already failed still waits for its tasks and children), and scope.NewChild calls parent.AddTasks on every path (children with their own context are counted too). " +
 			"NOT decided: outcomes under all interleavings of add/done/kill/close issued from other goroutines; listener side effects.",
 	})
 }
@@ -102,11 +103,10 @@ func eventWords(f *ssa.Function, classify func(in ssa.Instruction) string) ([]st
 	return out, overflow
 }
 
-
 // scopeRoles: unexported fields and helpers of scope.Scope discovered by type
 // and by what the exported methods do.
 type scopeRoles struct {
-	closed, wg, parent, mu string
+	closed, wg, parent, mu    string
 	guard, closeH, prevClosed *ssa.Function
 }
 
@@ -359,6 +359,9 @@ func rulesC11(c *Ctx) {
 	}
 
 	// ---- R4 children/tasks are awaited ------------------------------------------------
+	if wf := c.P.Func(scopePkg, "Scope", "Wait"); wf != nil {
+		ruleCloseWaitsChildRegisters(c, "R4", wf)
+	}
 	_, wgi := fieldIndex(scopeT, sro.wg)
 	wgUse := func(f *ssa.Function, method string) (*CallInfo, bool) {
 		for _, ci := range Calls(f) {
@@ -700,4 +703,36 @@ func ruleScopeWaitWaits(c *Ctx, rule string) {
 	}
 	c.Check(ok, rule, "scope.(*Scope).Wait waits for the task group on every path", waitF.Pos(), "wg.Wait() on every path to every return",
 		"Wait can return without waiting for the task group — whoever waits on a scope proceeds while its tasks or child scopes are still running")
+	ruleCloseWaitsChildRegisters(c, rule, waitF)
+}
+
+// ruleCloseWaitsChildRegisters: Close reaches Wait on every path, and every
+// child scope registers with its parent whatever context it uses.
+func ruleCloseWaitsChildRegisters(c *Ctx, rule string, waitF *ssa.Function) {
+	// Close waits on every path (a scope that already failed still has to wait for what it started)
+	if closeF := c.P.Func(scopePkg, "Scope", "Close"); closeF != nil {
+		bad := MustPass(closeF, nil, func(in ssa.Instruction) bool {
+			ci := callInfo(in, nil, 0)
+			if ci == nil {
+				return false
+			}
+			if ci.Static == waitF {
+				return true
+			}
+			return ci.Static != nil && qualName(ci.Static) == "sync.(WaitGroup).Wait"
+		})
+		c.Check(len(bad) == 0, rule, "scope.(*Scope).Close waits on every path", closeF.Pos(), "Wait() on every path to every return",
+			"Close can finish (fire rollback/after-close and sign off from its parent) without waiting for the scope's tasks and child scopes — whoever waits for this scope's parent proceeds while that work is still running")
+	}
+	// every child registers with its parent, whatever context it uses
+	if nc := c.P.Func(scopePkg, "", "NewChild"); nc != nil && len(nc.Params) > 0 {
+		bad := MustPass(nc, nil, func(in ssa.Instruction) bool {
+			ci := callInfo(in, nil, 0)
+			return ci != nil && ci.Method != nil && ci.Method.Name() == "AddTasks" && resolve(ci.Recv()) == ssa.Value(nc.Params[0])
+		})
+		c.Check(len(bad) == 0, rule, "scope.NewChild registers the child with its parent on every path", nc.Pos(), "parent.AddTasks on every path",
+			"a child scope can be created without being counted by its parent (e.g. only children that share the parent's context are counted) — the parent's Wait/Close no longer waits for such a child")
+	} else {
+		c.Bad(rule, "scope.NewChild", 0, "anchor not found")
+	}
 }
